@@ -38,6 +38,66 @@ def run(chk, replay=None):
     nontrivial = set()
     samples = []
 
+    # ---- install into the LIVE state of a lagging node, component level: the real actors of a mini node ---------
+    # node A applies a whole committed history, node B only a prefix; every record of A's real snapshot then goes through
+    # RaftDataHandler::load_snapshot over B's live state (what InstallSnapshot does on a running node).  The rest of the
+    # history contains no removal (a key the leader removed inside the compacted range stays on B: recorded finding), so
+    # B must serve exactly what A serves: configs (+history), sequences, user rows, user namespaces, persistent instances.
+    import os
+    from checks import c07
+    ok_h, out_h = lib.harness_build()
+    if not ok_h:
+        chk.violation("harness does not build against /repo", {"broken": "harness build", "log": out_h[-2000:]}, False)
+    else:
+        henv = {"RNVERIF_TMP": os.path.join(lib.WORK, "tmp")}
+        sm = lib.harness_run("dispatch", [{"k": "samples"}], env=henv)[0]["samples"]
+        g = c07.Gen(rng, sm)
+
+        def removal(q):
+            t = json.dumps(q)
+            return any(w in t for w in ("Remove", "Delete", "Drop", "InitFromOldValue"))
+        icases = []
+        for _ in range(24 if tier == "quick" else 300):
+            reqs = [q for q in g.sequence(rng.choice([15, 30, 50])) if c07.variant_of(q) not in ("NodeAddr", "Members")]
+            p = rng.randrange(0, len(reqs))
+            icases.append({"k": "install", "reqs": reqs[:p] + [q for q in reqs[p:] if not removal(q)], "prefix": p})
+        # renamed namespace / moved sequence / republished config / changed user row inside the part B has not seen
+        icases.append({"k": "install", "prefix": 4, "reqs": [
+            {"NamespaceReq": {"Set": {"namespace_id": "dev", "namespace_name": "Development", "type": "2"}}},
+            {"SequenceReq": {"req": {"NextRange": ["seq1", 100]}}},
+            {"TableManagerReq": {"Set": {"table_name": "T_USER", "key": list(b"u1"), "value": list(b"old"), "last_seq_id": None}}},
+            {"ConfigSet": {"key": "d1\u0002g1", "value": "v-old", "config_type": None, "desc": None, "history_id": 1,
+                           "history_table_id": None, "op_time": 1700000000001, "op_user": None}},
+            {"NamespaceReq": {"Update": {"namespace_id": "dev", "namespace_name": "Dev (eu)", "type": "2"}}},
+            {"SequenceReq": {"req": {"NextRange": ["seq1", 100]}}},
+            {"TableManagerReq": {"Set": {"table_name": "T_USER", "key": list(b"u1"), "value": list(b"new"), "last_seq_id": None}}},
+            {"ConfigSet": {"key": "d1\u0002g1", "value": "v-new", "config_type": None, "desc": None, "history_id": 2,
+                           "history_table_id": None, "op_time": 1700000000002, "op_user": None}},
+            {"NamespaceReq": {"Set": {"namespace_id": "qa", "namespace_name": "QA", "type": "2"}}}]})
+        ires = lib.harness_run_parallel("dispatch", icases, shards=8, env=henv)
+
+        def view(d):
+            users = sorted((e["id"], e["name"]) for e in d["namespace"]["sorted"] if e["flag"] & 2 and e["id"] != "__already_sync")
+            rows = [t for t in d["table"]["tables"] if t["name"] in ("T_USER", "T_CACHE") and t["rows"]]
+            return {"config": d["config"], "sequences": d["sequences"], "naming": d["naming"], "user_namespaces": users, "user_rows": rows}
+        n_inst = 0
+        for c, r in zip(icases, ires):
+            n_eval += 1
+            if r.get("r") != "ok":
+                chk.violation("live-install case failed: %s" % json.dumps(r)[:300], {"suite": "dispatch", "case": c, "impl": r}, True)
+                continue
+            n_inst += 1
+            va, vb = view(r["a_final"]), view(r["b_installed"])
+            nontrivial.add(("install-live", len(c["reqs"]), c["prefix"], r["snapshot_records"]))
+            for comp in va:
+                if va[comp] != vb[comp]:
+                    chk.classify("install-live:%s" % comp,
+                                 "a running node that had applied %d of %d entries and was then caught up by the leader's snapshot (no removal "
+                                 "in the rest) serves different %s than the leader: %s"
+                                 % (c["prefix"], len(c["reqs"]), comp, lib.diff_first(va[comp], vb[comp])),
+                                 {"suite": "dispatch", "case": c, "component": comp, "leader": va[comp], "installed": vb[comp]})
+        chk.cov["install_live_cases"] = n_inst
+
     # ---- late join ---------------------------------------------------------------------
     shapes = [(90, 30), (60, 10)] if tier == "quick" else [(90, 30), (60, 10), (300, 50), (40, 5), (500, 100), (120, 20)]
     for writes, threshold in shapes:
